@@ -325,9 +325,9 @@ func Mutate(r *rand.Rand, src string) string {
 					break
 				}
 			}
-		case op < 19: // insert an entity or special character at the start of an attribute value or text
+		case op < 19: // insert an entity or special character at the start of a text
 			for k := i; k < len(toks); k++ {
-				if toks[k] == `"` || toks[k] == ">" || toks[k] == "'" {
+				if toks[k] == ">" {
 					insert(k+1, pick(r, "&amp;", "&lt;", "&quot;", "&amp;lt;", "&#39;", "&"))
 					break
 				}
